@@ -100,10 +100,14 @@ const STRUCTURAL: [(&str, &str); 39] = [
     ("trait-path-other-bound-tparam-receiver-via-call", "trait Dsp { fn sw(Self, int32) -> string; }\nimpl Dsp for P { fn sw(self: P, k: int32) -> string { int32_to_string(self.a + k) } }\nfn idg[U](u: U) -> U { u }\nstruct Bq[T] { v: T }\ntrait Oth { fn oth(Self) -> int32; }\nimpl Oth for P { fn oth(self: P) -> int32 { 1 } }\nfn render[T: Oth](x: T) -> string { Dsp::sw(idg(x), 1) }\nfn main() { string_println(render(P { a: 1 })) }"),
 ];
 
-const PRELUDE: &str = "struct P { a: int32 }\nenum Opt { Non, Som(int32) }\n";
+const PRELUDE: &str = "struct P { a: int32 }\nenum Opt { Non, Som(int32) }\ntrait Opd { fn opd(Self) -> int32; }\nimpl Opd for int32 { fn opd(self: int32) -> int32 { self } }\nstruct HoldsDyn { d: dyn Opd }\n";
 
 /// operator-domain alphabet: (tag, type annotation, value 1, value 2)
-const OPTYPES: [(&str, &str, &str, &str); 13] = [
+const OPTYPES: [(&str, &str, &str, &str); 16] = [
+    // values behind a trait object: what they hold is not known where they are compared
+    ("dyn", "dyn Opd", "1", "2"),
+    ("tuple-holding-a-dyn", "(int32, dyn Opd)", "(1, 1)", "(1, 2)"),
+    ("struct-holding-a-dyn", "HoldsDyn", "HoldsDyn { d: 1 }", "HoldsDyn { d: 2 }"),
     ("int32", "int32", "1", "2"),
     ("uint8", "uint8", "1u8", "2u8"),
     ("float64", "float64", "1.5", "2.5"),
@@ -293,7 +297,7 @@ impl Family for IllTyped {
         &["C03", "C04", "C10", "C07", "C02"]
     }
     fn rule(&self) -> &'static str {
-        "30 typed positions (operator operands, annotated let, parameters, conditions, return position, struct field, constructor payload, array element/index/set, ref_set, vec_push, branches, closure/method/generic arguments, the argument of a trait method called in path / dot form on a concrete receiver and on a type-parameter receiver whose type is known at the call or only after a generic call / through a closure parameter / through a field of a generic struct) x 10 expressions of different types (the well-typed one must be accepted, the other nine rejected by the typer); 32 structural errors (a field / method result / pattern variable of a generic struct or enum used at the type of another of its parameters, inside a generic function whose parameters carry the struct's parameter names in another order; array length in annotation/param/return, unknown/missing/extra field, call and constructor arity, tuple projection range, pattern arity/type, calling a non-function, unknown type/variant; a trait method called in path form with too many / too few arguments, without the bound, under another bound, with no impl for the receiver - the receiver reached directly, through a generic call, a closure parameter, a field); literal patterns: 4 literal kinds x 10 scrutinee types x 6 positions (directly; under a generic constructor, in a tuple from a generic call, on a closure parameter, on a let-bound generic result - the scrutinee's type still being inferred; against a rigid type parameter): rejected unless the literal's kind is the type's; written types: 24 spellings (6 well-formed; unknown names bare and under Vec / Ref / array / tuple / function types / a generic struct, a generic struct with no / too many arguments also under Vec, arguments given to a non-generic struct or a builtin, dyn of a missing trait / of a struct, the enclosing function's type parameter and one that is nobody's) x 16 places a type can be written (parameter, result, struct field, enum payload, let annotation in main / in an unused function / in a closure / in a match arm / on a tuple pattern / in a generic function, closure parameter plain / nested / second, method parameter, trait method parameter, extern parameter): accepted iff well-formed; operator domain: 12 binary + 2 unary operators x 13 operand types, written directly and inside a generic function instantiated at the type (accepted iff inside the documented domain). non-trivial = ill-typed variants; distinct = distinct source text; plus literal patterns at the edge of every integer type (the largest value, one past it, twice past it) x the 6 places a scrutinee type is learned x 8 types: past the largest value must be rejected (also reported under C10); plus array lengths written in a signature (3 = the value's length, 2, 0, 4, 2^63-1, 2^64-1 - the compiler's own any-length marker -, 2^64) x 6 nestings (bare, in a Ref / tuple / Vec / generic enum, array of arrays) x called directly / through a closure: only 3 is accepted, every case terminates; plus array literals of 1, 2, 3 elements checked against a written [E; 2] for 8 element kinds (int32, string, dyn, tuple / array / struct holding a dyn, generic struct, function) in 9 places (let annotation, argument, result, struct field, tuple component, inner array, branch result, match-arm result, closure result): only 2 elements are accepted; plus a trait call on a type-parameter receiver without the bound: 5 routes to the receiver x 7 neighbours that do have the bound (none, another function with the same / another parameter name before or after, the same name bounded by another trait, a method, the function's own second parameter) x instantiated at a type with / without an impl: all rejected (also reported under C07); plus all 512 containment graphs on three structs (an edge = a field holding the other struct by value) x 6 orders of declaration x 4 kinds of field (the struct, a tuple, an array, a generic instance holding it): accepted iff acyclic, and the accepted ones must be valid Go and print the sum (quick: direct fields in all 6 orders, the other kinds in 2); plus 6 names no struct has as a field (among them the word the editor queries insert at the cursor) x 7 places a field name is written (read, read and used, through a field, on a generic struct, on a parameter, struct pattern, struct literal): all rejected"
+        "30 typed positions (operator operands, annotated let, parameters, conditions, return position, struct field, constructor payload, array element/index/set, ref_set, vec_push, branches, closure/method/generic arguments, the argument of a trait method called in path / dot form on a concrete receiver and on a type-parameter receiver whose type is known at the call or only after a generic call / through a closure parameter / through a field of a generic struct) x 10 expressions of different types (the well-typed one must be accepted, the other nine rejected by the typer); 32 structural errors (a field / method result / pattern variable of a generic struct or enum used at the type of another of its parameters, inside a generic function whose parameters carry the struct's parameter names in another order; array length in annotation/param/return, unknown/missing/extra field, call and constructor arity, tuple projection range, pattern arity/type, calling a non-function, unknown type/variant; a trait method called in path form with too many / too few arguments, without the bound, under another bound, with no impl for the receiver - the receiver reached directly, through a generic call, a closure parameter, a field); literal patterns: 4 literal kinds x 10 scrutinee types x 6 positions (directly; under a generic constructor, in a tuple from a generic call, on a closure parameter, on a let-bound generic result - the scrutinee's type still being inferred; against a rigid type parameter): rejected unless the literal's kind is the type's; written types: 24 spellings (6 well-formed; unknown names bare and under Vec / Ref / array / tuple / function types / a generic struct, a generic struct with no / too many arguments also under Vec, arguments given to a non-generic struct or a builtin, dyn of a missing trait / of a struct, the enclosing function's type parameter and one that is nobody's) x 16 places a type can be written (parameter, result, struct field, enum payload, let annotation in main / in an unused function / in a closure / in a match arm / on a tuple pattern / in a generic function, closure parameter plain / nested / second, method parameter, trait method parameter, extern parameter): accepted iff well-formed; operator domain: 12 binary + 2 unary operators x 16 operand types (among them a dyn value and a tuple / struct holding one: not comparable), written directly and inside a generic function instantiated at the type (accepted iff inside the documented domain). non-trivial = ill-typed variants; distinct = distinct source text; plus literal patterns at the edge of every integer type (the largest value, one past it, twice past it) x the 6 places a scrutinee type is learned x 8 types: past the largest value must be rejected (also reported under C10); plus array lengths written in a signature (3 = the value's length, 2, 0, 4, 2^63-1, 2^64-1 - the compiler's own any-length marker -, 2^64) x 6 nestings (bare, in a Ref / tuple / Vec / generic enum, array of arrays) x called directly / through a closure: only 3 is accepted, every case terminates; plus array literals of 1, 2, 3 elements checked against a written [E; 2] for 8 element kinds (int32, string, dyn, tuple / array / struct holding a dyn, generic struct, function) in 9 places (let annotation, argument, result, struct field, tuple component, inner array, branch result, match-arm result, closure result): only 2 elements are accepted; plus a trait call on a type-parameter receiver without the bound: 5 routes to the receiver x 7 neighbours that do have the bound (none, another function with the same / another parameter name before or after, the same name bounded by another trait, a method, the function's own second parameter) x instantiated at a type with / without an impl: all rejected (also reported under C07); plus all 512 containment graphs on three structs (an edge = a field holding the other struct by value) x 6 orders of declaration x 4 kinds of field (the struct, a tuple, an array, a generic instance holding it): accepted iff acyclic, and the accepted ones must be valid Go and print the sum (quick: direct fields in all 6 orders, the other kinds in 2); plus 6 names no struct has as a field (among them the word the editor queries insert at the cursor) x 7 places a field name is written (read, read and used, through a field, on a generic struct, on a parameter, struct pattern, struct literal): all rejected"
     }
     fn cases(&self, tier: Tier) -> Box<dyn Iterator<Item = Value> + '_> {
         let mut v = Vec::new();
